@@ -14,7 +14,7 @@ func init() {
 	property("C16",
 		"Static conformance of the line-marker mechanism: (a) transparency — marker lines are produced only by emitLineMarker (one whole line '# <n> \"<file>\"'), every call of it is guarded by shouldEmitLineMarkers(enable, path) = enable && len(path) > 0 on the same path value, the enable flag and the input path flow only into parameters of that role (they are never tested directly), and the raw-block emitter writes the same text in both arms apart from the markers; (b) every marker is followed, as the next write to the same builder, by the rendering of the construct that owns the marker's token (same object, or same index of parallel slices); (c) no position-less token can reach the AST, a marker or an error: no token literal is synthesised without a line number, no token variable is read before it is assigned on some path, an operand's token is the token that is current when the operand's first literal is read (for an auto-var operand: the Token of its command statement), a node's own Token is the token current when its parser was entered, and list item tokens come from the token window; the -lm and -i options reach the emitter fields of their meaning. NOT decided: the line arithmetic of multi-line raw blocks.",
 		[]string{"lexer tokens carry the line they start on (C19.a)", "go/ssa lowering is faithful to the source"},
-		"C16.a", "C16.b", "C16.c", "C19.a", "C19.b", "C14.a", "C17.f")
+		"C16.a", "C16.b", "C16.c", "C19.a", "C19.b", "C14.a", "C17.f", "C16.d")
 
 	register(&Rule{ID: "C16.a", Doc: "marker emission guarded by shouldEmitLineMarkers; flag and path confined to their role", Floor: 18, Run: c16a})
 	register(&Rule{ID: "C16.b", Doc: "each marker's token belongs to the construct rendered by the next write", Floor: 13, Run: c16b})
@@ -436,6 +436,106 @@ func c16c(c *Ctx) {
 			c.Check(n > 0, "format/returns-text-token", c.W.FuncPos(fn), "format() has a successful return", "no successful return found in parseFormatStringOperator")
 		}
 	}
+	// (vii) a token that stands for text gathered over several tokens — its Literal is replaced by
+	// what a loop accumulated — is the FIRST token of that text: the copy is taken before the
+	// gathering loop consumes anything (taken afterwards it is the closing ':' or ')' and a marker
+	// names the line the construct ends on)
+	nGather := 0
+	for _, fn := range c.W.FuncsOf("parser") {
+		if isTestFunc(c.W, fn) {
+			continue
+		}
+		heads := loopHeaders(fn)
+		instrs(fn, func(in ssa.Instruction) {
+			st, ok := in.(*ssa.Store)
+			if !ok {
+				return
+			}
+			fa, ok := st.Addr.(*ssa.FieldAddr)
+			if !ok || fieldName(fa.X.Type(), fa.Field) != "Literal" || !typeIs(fa.X.Type(), "token", "Token") {
+				return
+			}
+			a, ok := fa.X.(*ssa.Alloc)
+			if !ok {
+				return
+			}
+			// the load the copy was initialised from
+			var lds []*ssa.UnOp
+			for _, r := range *a.Referrers() {
+				if w, ok := r.(*ssa.Store); ok && w.Addr == ssa.Value(a) {
+					if ld, ok := w.Val.(*ssa.UnOp); ok {
+						if _, t, f, ok := fieldAddrOf(ld.X); ok && typeIs(t, "parser", "Parser") && strings.HasSuffix(f, "Token") {
+							lds = append(lds, ld)
+						}
+					}
+				}
+			}
+			if len(lds) == 0 {
+				return
+			}
+			// loops that gather the text
+			feeding := map[*ssa.BasicBlock]bool{}
+			seenV := map[ssa.Value]bool{}
+			var walk func(v ssa.Value, depth int)
+			walk = func(v ssa.Value, depth int) {
+				if seenV[v] || depth > 8 {
+					return
+				}
+				seenV[v] = true
+				switch x := v.(type) {
+				case *ssa.Phi:
+					if isLoopHeader(x.Block()) {
+						feeding[x.Block()] = true
+					}
+					for _, e := range x.Edges {
+						walk(e, depth+1)
+					}
+				case *ssa.Call:
+					for _, arg := range x.Call.Args {
+						walk(arg, depth+1)
+					}
+					if calleeName(x) == "(*strings.Builder).String" {
+						if sb, ok := x.Call.Args[0].(*ssa.Alloc); ok {
+							for _, r := range *sb.Referrers() {
+								if wc, ok := r.(*ssa.Call); ok && strings.HasPrefix(calleeName(wc), "(*strings.Builder).Write") {
+									if h := heads[wc.Block()]; h != nil {
+										feeding[h] = true
+									}
+								}
+							}
+						}
+					}
+				case *ssa.BinOp:
+					walk(x.X, depth+1)
+					walk(x.Y, depth+1)
+				case *ssa.Slice:
+					walk(x.X, depth+1)
+				case *ssa.Extract:
+					walk(x.Tuple, depth+1)
+				}
+			}
+			walk(st.Val, 0)
+			if len(feeding) == 0 {
+				return
+			}
+			nGather++
+			bad := ""
+			for h := range feeding {
+				for _, ld := range lds {
+					outer := heads[ld.Block()]
+					if outer == h {
+						bad = "inside the loop that gathers the text"
+						continue
+					}
+					if _, late := existsPath(pathQuery{from: point{h, 0}, stopAt: func(x ssa.Instruction) bool { return outer != nil && x.Block() == outer }, target: func(x ssa.Instruction) bool { return x == ssa.Instruction(ld) }}); late {
+						bad = "after the loop that gathers the text"
+					}
+				}
+			}
+			c.Check(bad == "", c.W.FuncKey(fn)+"/gathered-text-token["+pretty(c.term(fn, st.Val))+"]", c.W.Pos(st.Pos()), "the token that carries gathered text was copied before the gathering loop (it is the text's first token)", "the token that carries the gathered text "+pretty(c.term(fn, st.Val))+" is copied from the parser's window "+bad+": it is not the first token of the text, and a line marker built from it names the wrong line when the text spans lines")
+		})
+	}
+	c.Check(nGather >= 2, "gathered-text-tokens/scanned", "-", fmt.Sprintf("%d tokens carrying gathered text", nGather), fmt.Sprintf("expected at least 2 tokens carrying gathered text (map script condition, case value), found %d", nGather))
 	// (i) token literals synthesised in the parser
 	nLit := 0
 	for _, fn := range c.W.FuncsOf("parser") {
